@@ -56,6 +56,26 @@ CLAIMS = {
    note=NOTE + "C19: xarray stand-in for the inference-data container; suffix segments assumed trigger-free (examples show what a band called 'theta' does); float rounding of remainder observed only.",
    technique="Lean 4 theorems (real-analysis wrap + string/segment lemmas over all suffixes) on name tests translated from source + fate correspondence",
    design="7/C19"),
+ "C07": dict(
+   text=("Proof, full for the formulas over ℝ: loss.py is mirrored expression by expression (ten losses, generic scalar); for every model "
+         "value, datum, positive rms and nuisance value the code-shaped per-pixel term equals the documented likelihood: Gaussian σ=rms, "
+         "σ(1+f), σ²+σ_sys², Cash, pseudo-Huber δ²(√(1+(r/δ)²)−1) (obligation: the regenerated source carries the δ² prefactor), Student-t "
+         "closed form with symmetry / scale law / ν=5, mixtures = log of the weighted Gaussian sum, outlier fraction ∈ [0,0.25], nuisance "
+         "supports and names from the regenerated constants. Tie: every real loss traced in float64 (1e-9) and float32 (property tolerance) "
+         "against the executable model: site names/kinds exact, per-pixel masked terms, nuisance priors, deterministic values."),
+   note=NOTE + "C07: numpyro log_prob formulas (Normal, StudentT, TruncatedNormal, MixtureSameFamily) and handlers.mask are modelled by textbook formulas and validated per site; float32 evaluation observed at 1e-4/1e-5.",
+   technique="Lean 4 real-analysis theorems (code-shaped formula = documented likelihood) + regenerated constants + per-site trace correspondence",
+   design="7/C07"),
+ "C06": dict(
+   text=("Proof, full over ℝ: for all ten losses, every pixel list (any size), mask and nuisance value, the per-pixel terms and the "
+         "log-likelihood depend on unmasked pixels only (obligation: the regenerated source averages rms over unmasked pixels), hence "
+         "zero derivative at masked pixels; unmasked pixels matter (closed-form differences for Gaussian/Cash/Huber); polarity from the "
+         "C18 mask model. Tie: real single/multi/multi-band fitters — stored mask and the set of pixels with non-zero d/d(data) equal the "
+         "model's used set; oracle: bit-identical log-density and exactly zero d/d(data,rms) under replacement of data/rms/model at masked "
+         "pixels (huge values and rms=0), finite parameter gradients, non-zero derivatives on unmasked pixels."),
+   note=NOTE + "C06: reverse-mode 0·∞ effects are outside the ℝ theorems and are covered by the oracle only (the rms=0 case was a genuine defect, fixed).",
+   technique="Lean 4 theorems by induction over pixel lists + fitter-level gradient/used-set correspondence and exact perturbation oracle",
+   design="7/C06"),
 }
 
 checks, na = [], []
